@@ -571,6 +571,9 @@ class GroupBy:
         elif keep_chunked:
             # no pointers to unify, but we want to keep chunked so do nothing
             return
+        else:
+            # already unified in place (global codes, still chunked): concatenate
+            chunks = [np.asarray(k) for k in self._group_ikey.chunks]
 
         if keep_chunked:
             self._group_ikey = pa.chunked_array(chunks)
